@@ -174,6 +174,7 @@ func newAPIWorld() *apiWorld {
 		{"MergeMergePatches(null,mp2) [rejected]", false, func(w *apiWorld) ([]byte, error) { return v5.MergeMergePatches(B("mpNullDoc"), B("mp2")) }},
 		{"MergeMergePatches(mp1,mp2)", false, func(w *apiWorld) ([]byte, error) { return v5.MergeMergePatches(B("mp1"), B("mp2")) }},
 		{"CreateMergePatch(docObj,tgtObj)", true, func(w *apiWorld) ([]byte, error) { return v5.CreateMergePatch(B("docObj"), B("tgtObj")) }},
+		{"CreateMergePatch(docObj,docObj) [equal documents]", true, func(w *apiWorld) ([]byte, error) { return v5.CreateMergePatch(B("docObj"), B("docObj")) }},
 		{"CreateMergePatch(arrA,arrB)", true, func(w *apiWorld) ([]byte, error) { return v5.CreateMergePatch(B("arrA"), B("arrB")) }},
 		{"CreateMergePatch(docObj,docArr) [rejected]", true, func(w *apiWorld) ([]byte, error) { return v5.CreateMergePatch(B("docObj"), B("docArr")) }},
 		{"CreateMergePatch(docBad,docObj) [malformed]", true, func(w *apiWorld) ([]byte, error) { return v5.CreateMergePatch(B("docBad"), B("docObj")) }},
